@@ -151,3 +151,27 @@ func TestDevDiags(t *testing.T) {
 		}
 	}
 }
+
+func TestDevC15Graph(t *testing.T) {
+	if os.Getenv("C15G") == "" {
+		t.Skip()
+	}
+	ill, _ := strconv.Atoi(os.Getenv("ILL"))
+	for g := 0; g < 6; g++ {
+		gr := c15Gen(g*7919+13, ill)
+		p := gr.sources()
+		a := Analyze(p, NewProvider(p.Modules))
+		var errs []string
+		for _, d := range a.Diags {
+			if strings.HasPrefix(d, fmt.Sprintf("%d|", errorLevel)) {
+				errs = append(errs, d)
+			}
+		}
+		t.Logf("graph %d illegal=%s overlap=%s errors=%v syntax=%v", g, gr.illegal, gr.overlap, errs, a.Syntax)
+		if os.Getenv("SRC") != "" {
+			for n, s := range p.Modules {
+				t.Logf("--- %s\n%s", n, s)
+			}
+		}
+	}
+}
